@@ -54,8 +54,8 @@ def coreOf : UKind α → M (Core α)
   | .sma n => pure (smaCore n)
   | .ema n => pure (emaCore n (nat 2))
   | .emaa n a => pure (emaCore n a)
-  | .alma n => pure (almaCore n (nat 6) (dec 85 100))
-  | .almac n s o => pure (almaCore n s o)
+  | .alma n => almaCoreC n (nat 6) (dec 85 100)
+  | .almac n s o => almaCoreC n s o
   | .cum n => pure (cumCore n)
   | .min n => minCore n
   | .max n => maxCore n
